@@ -200,4 +200,51 @@ theorem run_cap (ops : List Op) : ∀ s, (runOps s ops).cap = s.cap := by
     show (runOps (step s o) ops).cap = s.cap
     rw [ih]; cases o <;> simp [step]
 
+
+/-- a poster is blocked only while the channel is full -/
+def Full (s : St) : Prop := s.blocked ≠ [] → s.cap ≤ s.queue.length
+
+theorem full_post (s : St) (mb msg : Nat) (g : Bool) (hi : Inv s) (h : Full s) : Full (post s mb msg g) := by
+  unfold post Full at *
+  by_cases hs : scheduled s mb = true
+  · simpa [hs] using h
+  · simp only [hs]
+    cases hg : s.gateMb with
+    | none =>
+      obtain ⟨_, hb⟩ := hi.1 hg
+      simp only [Bool.false_eq_true, if_false]
+      by_cases hgt : g = true
+      · simp [hgt, hb]
+      · simp [hgt, hb]
+    | some g' =>
+      simp only [Bool.false_eq_true, if_false]
+      by_cases hl : s.queue.length < s.cap
+      · simp only [hl, if_true]
+        intro hb
+        have := h hb
+        omega
+      · simp only [hl, if_false]
+        intro _
+        show s.cap ≤ s.queue.length
+        omega
+
+theorem full_release (s : St) (h : Full s) : Full (release s) := by
+  unfold release Full at *
+  cases hg : s.gateMb with
+  | none => simpa using h
+  | some g =>
+    simp only
+    intro hb
+    exact absurd (foldl_runMb_fields (s.queue ++ s.blocked) (runMb { s with gateMb := none, queue := [], blocked := [] } g)).2.2.1 hb
+
+theorem full_run (ops : List Op) : ∀ s, Inv s → Full s → Full (runOps s ops) := by
+  induction ops with
+  | nil => intro s _ h; exact h
+  | cons o ops ih =>
+    intro s hi h
+    refine ih _ (inv_step s o hi) ?_
+    cases o with
+    | post mb msg g => exact full_post s mb msg g hi h
+    | release => exact full_release s h
+
 end Cell2v.SchedDisp
